@@ -61,6 +61,8 @@ structure Case where
   bad : Bool := false
   concLoc : Nat := 0
   concRem : Nat := 0
+  lastIdleSelect : Nat := 0                    -- call number of the last `select(timeout=0) -> 0`
+  spin : Nat := 0
 
 def routeSimple (a : Bytes) : Ch × Bytes :=
   -- harness configuration: me = locals = h.example, no virtualdomains, no percenthack
@@ -356,7 +358,14 @@ def handle (d : D) (line : String) : IO D := do
       let cn := if fd == "2" then 0 else 1
       let d := { d with c := { d.c with obs := observeReports d.c.obs cn data } }
       feed d (.rbytes (if fd == "2" then .loc else .rem) data) s!"rbytes fd={fd}"
-    | _ :: "select" :: more =>
+    | callno :: "select" :: more =>
+      -- C16 (no busy loop): two selects with timeout 0 that found nothing ready, with no system call in between
+      let k := ((callno.drop 1).toString.toNat?).getD 0
+      let idle := kvOf more "timeout" == "0" && more.contains "0" && (more.getD 2 "") == "0"
+      let spinning := idle && d.c.lastIdleSelect != 0 && k == d.c.lastIdleSelect + 1
+      let mut d := { d with c := { d.c with lastIdleSelect := if idle then k else 0, spin := if spinning then d.c.spin + 1 else 0 } }
+      if spinning && d.c.spin == 3 then
+        d ← oracleFail d "C16" s!"busy loop: select(timeout=0) returned 0 four times in a row with no other system call (call #{k})"
       match (kvOf more "clock").toNat? with
       | some t => feed d (.tick t) "tick"
       | none => return d
